@@ -139,6 +139,33 @@ def transcendental_lemmas(ts):
     return L
 
 
+def cleared_equalities(hyps):
+    """for hypotheses  a = b  over the reals containing divisions: the same equation with the
+    denominators cleared (a consequence wherever the denominators are non-zero, which is assumed
+    for every division occurring in the query)"""
+    out = []
+    fc, dc = {}, {}
+    for h in hyps:
+        eqs = []
+        if h.op == "=" and h.args[0].sort == T.REAL:
+            eqs.append(((), h))
+        elif h.op == "or":
+            es = [x for x in h.args if x.op == "=" and x.args[0].sort == T.REAL]
+            if len(es) == 1:
+                eqs.append((tuple(x for x in h.args if x is not es[0]), es[0]))
+        for others, e in eqs:
+            a, b = e.args
+            if not (S.has_div(a, dc) or S.has_div(b, dc)):
+                continue
+            (an, ad), (bn, bd) = S.to_frac(a, fc), S.to_frac(b, fc)
+            ra, rb = S.cancel_common(ad, bd)
+            out.append(T.or_(*others, T.eq(T.mul(an, rb), T.mul(bn, ra))))
+            for d in (ad, bd):
+                if not T.is_const(d):
+                    out.append(T.or_(*others, T.ne(d, 0)))
+    return out
+
+
 def _augment(hyps, goal, assume_domains):
     roots = hyps + ([goal] if goal is not None else [])
     if assume_domains:
@@ -147,6 +174,8 @@ def _augment(hyps, goal, assume_domains):
     hyps = hyps + sum_axioms(roots)
     roots = hyps + ([goal] if goal is not None else [])
     hyps = hyps + transcendental_lemmas(roots)
+    if assume_domains:
+        hyps = hyps + cleared_equalities(hyps)
     seen, out = set(), []
     for h in hyps:
         if h is T.TRUE or h.uid in seen:
@@ -236,8 +265,9 @@ def decide_conditions(hyps, goal, log, cache=None, lits=()):
     (each rewrite is justified by its own small entailment query).  `cache` remembers, for one
     path, conditions entailed by an earlier (smaller) hypothesis set without case literals -
     entailment is monotone in the hypotheses."""
+    global COND_ORACLE
     if COND_ORACLE is None:
-        return goal
+        COND_ORACLE = Oracle(os.path.join(os.path.dirname(os.path.dirname(os.path.abspath(__file__))), "out", "cond_default"), 2.0)
     for _ in range(4):
         conds = [c for c in S.ite_conditions([goal], limit=200) if _discrete_atom(c)]
         m = {}
